@@ -107,6 +107,10 @@ func listShapes(c *Counter) []Shaped {
 		mk("list1:link", ap.ItemCollection{&ap.Link{Type: ap.MentionType, Href: c.ID("h")}}),
 		mk("list2", ap.ItemCollection{c.ID("i"), &ap.Actor{ID: c.ID("p"), Type: ap.PersonType}}),
 		mk("list3", ap.ItemCollection{c.ID("i"), &ap.Object{ID: c.ID("o"), Type: ap.NoteType}, c.ID("j")}),
+		mk("list4:iri-then-query", func() ap.ItemCollection {
+			base := c.ID("i")
+			return ap.ItemCollection{base, base + "?page=2", &ap.Object{ID: base + "?page=2&sort=asc", Type: ap.NoteType}, base + "?page=3"}
+		}()),
 		mk("list3:link", ap.ItemCollection{&ap.Link{Type: ap.MentionType, Href: c.ID("h"), Name: ap.DefaultNaturalLanguageValue("txt-@a")}, &ap.Object{Name: ap.DefaultNaturalLanguageValue("txt-#tag")}, c.ID("j")}),
 	}
 }
@@ -117,7 +121,14 @@ func ShapesFor(f Field, c *Counter, gob bool) []Shaped {
 	switch f.Kind {
 	case KItem:
 		var out []Shaped
-		for _, s := range itemShapes(c) {
+		shapes := itemShapes(c)
+		if gob {
+			// a list held through a pointer (what ToItemCollection and the On* helpers hand out); JSON writes it like the list it points to
+			l := ap.ItemCollection{c.ID("i"), &ap.Object{ID: c.ID("o"), Type: ap.NoteType}}
+			var it ap.Item = &l
+			shapes = append(shapes, Shaped{"listptr", reflect.ValueOf(&it).Elem()})
+		}
+		for _, s := range shapes {
 			v := reflect.New(ft).Elem()
 			v.Set(s.V.Elem())
 			out = append(out, Shaped{s.Name, v})
@@ -148,6 +159,8 @@ func ShapesFor(f Field, c *Counter, gob bool) []Shaped {
 			{"time-utc", reflect.ValueOf(time.Date(2021, 3, 4, 5, 6, 7, 0, time.UTC))},
 			{"time-zone", reflect.ValueOf(time.Date(2021, 3, 4, 5, 6, 7, 0, time.FixedZone("x", -5*3600)))},
 			{"time-old", reflect.ValueOf(time.Date(1066, 10, 14, 9, 0, 0, 0, time.UTC))},
+			// a local mean time: the zone's offset is not a whole number of minutes (Amsterdam until 1937: +00:19:32)
+			{"time-lmt", reflect.ValueOf(time.Date(1921, 3, 4, 12, 0, 0, 0, time.FixedZone("LMT", 19*60+32)))},
 		}
 		if gob {
 			out = append(out, Shaped{"time-nanos", reflect.ValueOf(time.Date(2021, 3, 4, 5, 6, 7, 123456789, time.FixedZone("y", 3600)))})
